@@ -17,6 +17,11 @@ PoolAll == {
   U("polygon", "barycentricmeanecliptic", SkyPos \o <<V("mas", 540936000), V("mas", -73440000), V("mas", 540000000), V("mas", -72000000)>>, <<>>, NoAng, "0", NoProps),
   U("text", "fk4", SkyPos, <<>>, NoAng, "absent", [text |-> "123"]),
   U("point", "image", PixPos, <<>>, NoAng, "absent", [color |-> "red"]),
+  (* texts whose first/last character is a delimiter of another kind, and the empty text followed by other properties *)
+  U("circle", "image", PixPos, <<V("mpix", 5000)>>, NoAng, "F", [text |-> "", color |-> "red"]),
+  U("text", "image", PixPos, <<>>, NoAng, "absent", [text |-> "2\" beam"]),
+  U("circle", "fk5", SkyPos, <<V("mas", 1800000)>>, NoAng, "absent", [text |-> "FOV 5'", tag |-> "t1"]),
+  U("point", "galactic", SkyPos, <<>>, NoAng, "0", [text |-> "\"quoted\""]),
   U("line", "image", PixPos \o <<V("mpix", 0), V("mpix", 7000)>>, <<>>, NoAng, "F", [color |-> "red"]),
   U("compound", "image", <<>>, <<>>, NoAng, "absent", NoProps),
   U("circle", "unnamed", SkyPos, <<V("mas", 3600000)>>, NoAng, "absent", NoProps) }
